@@ -47,10 +47,11 @@ def runs(W, p):
     for nm in ("ocean_0012.nc", "ocean_001.nc"):
         (tmp / nm).touch()  # the glob of the wildcard name must find the file on disk (the decoy does not match ocean_00?.nc)
     romsfile.write(W, tmp / "ocean_001.nc", gs, fs)
-    wild = W.truth(W.bool("wildcard"))
-    forcing_name = str(tmp / ("ocean_00?.nc" if wild else "ocean_001.nc"))
+    wild = W.idx(W.int("wildcard", 0, 2))  # plain name, '?' wildcard, character class (all resolved by Path.glob in the forcing module)
+    forcing_name = str(tmp / ("ocean_001.nc", "ocean_00?.nc", "ocean_00[1].nc")[wild])
     x0, y0, z0, w0 = W.frac(11, 4), W.frac(5, 2), W.real("z0", 0, 99), W.real("w0")  # horizontal start concrete (cell rounding is C02/C09's subject)
     cont = W.truth(W.bool("continuous"))
+    defmod = W.truth(W.bool("default_modules"))  # forcing.module omitted (ladim.ROMS is the default for forcing and grid)
     cols = ["release_time", "X", "Y", "Z", "w0"]
     W.table(tmp / "rel.rls", cols, [[W.dt(T0), x0, y0, z0, w0], [W.dt(T0 + DT), x0, y0 + W.frac(1, 4), z0, w0 + 1]], header=False)
     start, stop = "2000-01-04 00:00:00", "2000-01-04 00:30:00"
@@ -60,7 +61,7 @@ def runs(W, p):
         (tmp / tag).mkdir()
         outs[tag] = tmp / tag / "out.nc"
     y2 = ["version: 2", "time:", f"    start: {start}", f"    stop: {stop}", f"    dt: {DT}",
-          "forcing:", "    module: ladim.ROMS", f"    filename: {forcing_name}",
+          "forcing:"] + ([] if defmod else ["    module: ladim.ROMS"]) + [f"    filename: {forcing_name}",
           "state:", "    instance_variables: {}", "    particle_variables: {w0: float}", "    default_values: {}",
           "tracker:", "    advection: EF",
           "release:", f"    release_file: {tmp / 'rel.rls'}", f"    names: [{', '.join(cols)}]"]
@@ -79,7 +80,7 @@ def runs(W, p):
         return '"' + str(s_) + '"'
 
     t2 = ["version = 2", "[time]", f"start = {start.replace(' ', 'T')}", f"stop = {stop.replace(' ', 'T')}", f"dt = {DT}",
-          "[forcing]", 'module = "ladim.ROMS"', f"filename = {tq(forcing_name)}",
+          "[forcing]"] + ([] if defmod else ['module = "ladim.ROMS"']) + [f"filename = {tq(forcing_name)}",
           "[state]", "instance_variables = {}", 'particle_variables = {w0 = "float"}', "default_values = {}",
           "[tracker]", 'advection = "EF"',
           "[release]", f"release_file = {tq(tmp / 'rel.rls')}", "names = [" + ", ".join(tq(c) for c in cols) + "]"]
